@@ -13,11 +13,13 @@ QINV = "UpperBound UnlimitedExact NoHiddenExactWindow Monotone SomePathOK SomePa
 GINV = "GcModelSafe GcSiblingOnly GcModelClosed EmitGc"
 
 
-def cfg_text(n, maxhidden, provides, upper, emit, spec, invs, k=1, i=0, siblings=False, minhidden=0, focus="all"):
+def cfg_text(n, maxhidden, provides, upper, emit, spec, invs, k=1, i=0, siblings=False, minhidden=0, focus="all",
+             shape="any", flaws=()):
     return ("CONSTANTS N = %d\n MaxHidden = %d\n Provides = %s\n Upper = %s\n EmitMode = \"%s\"\n Siblings = %s\n"
-            " MinHidden = %d\n Focus = \"%s\"\n SliceK = %d\n SliceI = %d\nSPECIFICATION %s\nINVARIANTS %s\nCHECK_DEADLOCK FALSE\n"
+            " MinHidden = %d\n Focus = \"%s\"\n Shape = \"%s\"\n Flaws = {%s}\n SliceK = %d\n SliceI = %d\n"
+            "SPECIFICATION %s\nINVARIANTS %s\nCHECK_DEADLOCK FALSE\n"
             % (n, maxhidden, "TRUE" if provides else "FALSE", "TRUE" if upper else "FALSE", emit,
-               "TRUE" if siblings else "FALSE", minhidden, focus, k, i, spec, invs))
+               "TRUE" if siblings else "FALSE", minhidden, focus, shape, ", ".join('"%s"' % f for f in flaws), k, i, spec, invs))
 
 
 def gen(ctx, name, allow_violation=False, **kw):
